@@ -43,6 +43,45 @@ nix::Dimension build(const ConcreteAxis &ax) {
     return AF.a.appendDataFrameDimension(AF.df, 0u);
 }
 
+// The same axis reached differently: the descriptor is first created with ANOTHER definition, a handle to it is kept and used
+// for one conversion, then the definition is changed to `ax` through a second handle; the queries go through the KEPT handle.
+// A conversion depends on the axis as it is at the time of the call, not on what a handle saw earlier.
+nix::Dimension buildKept(const ConcreteAxis &ax) {
+    AF.a.deleteDimensions();
+    auto warm = [](std::function<void()> f) { try { f(); } catch (...) {} };
+    if (ax.kind == "sampled") {
+        nix::SampledDimension d = AF.a.appendSampledDimension(ax.interval * 2.0 + 1.0);
+        d.offset(ax.offset + 3.0);
+        warm([&] { (void) d.indexOf(1.0, nix::PositionMatch::GreaterOrEqual); (void) d.positionAt(2); });
+        nix::SampledDimension e = AF.a.getDimension(1).asSampledDimension();
+        e.samplingInterval(ax.interval); e.offset(ax.offset);
+        return d;
+    }
+    if (ax.kind == "range") {
+        nix::RangeDimension d = AF.a.appendRangeDimension(std::vector<double>{-1000.0, 1000.0, 5000.0});
+        warm([&] { (void) d.indexOf(0.0, nix::PositionMatch::GreaterOrEqual); (void) d.tickAt(1); (void) d.positionInRange(0.0); });
+        nix::RangeDimension e = AF.a.getDimension(1).asRangeDimension();
+        e.ticks(ax.ticks);
+        return d;
+    }
+    if (ax.kind == "setL" || ax.kind == "set0") {
+        std::vector<std::string> other, l;
+        for (long i = 0; i < ax.count() + 2; i++) other.push_back("o" + std::to_string(i));
+        if (ax.kind == "set0") other.resize(1);
+        nix::SetDimension d = AF.a.appendSetDimension(other);
+        warm([&] { (void) d.indexOf(0.0, nix::PositionMatch::GreaterOrEqual); (void) d.indexOf(0.0, 1.0, nix::RangeMatch::Inclusive); });
+        if (ax.kind == "setL") for (long i = 0; i < ax.count(); i++) l.push_back("l" + std::to_string(i));
+        nix::SetDimension e = AF.a.getDimension(1).asSetDimension();
+        e.labels(l);
+        return d;
+    }
+    AF.df.rows((nix::ndsize_t) ax.count() + 2);
+    nix::DataFrameDimension d = AF.a.appendDataFrameDimension(AF.df, 0u);
+    warm([&] { (void) d.indexOf(0.0, nix::PositionMatch::GreaterOrEqual); });
+    AF.df.rows((nix::ndsize_t) ax.count());
+    return d;
+}
+
 json idxJson(const boost::optional<nix::ndsize_t> &o) {
     if (!o) return json{{"some", false}, {"idx", 0}};
     return json{{"some", true}, {"idx", (long long) *o}};
@@ -88,7 +127,9 @@ json handle(Ctx &c, const json &rec) {
     // sweep: the on-coordinate cases of the one-sample window are run for (a stride of) every sample index up to 10^4
     long sweep = (t == "index" && k == "sampled" && lo && n == 1 && q == 1) ? c.opts.value("sweep", 0L) : 0L;
     for (const ConcreteAxis &ax : concreteAxes(k, n, lo, c.seed, all, sweep)) {
-        nix::Dimension d = build(ax);
+        static unsigned long turn = 0;
+        bool kept = (++turn % 2 == 0) && !(ax.kind == "range" && ax.ticks.empty());
+        nix::Dimension d = kept ? buildKept(ax) : build(ax);
         // the axis definition itself: the library's coordinates must be the harness's
         for (long i = 0; i < n; i++) {
             double lib;
